@@ -2,11 +2,56 @@
   Round-trip, top level: the relation "`e` is a wire encoding of the response `r`" for all the
   response kinds covered so far, and the theorem that `parseResponse` inverts it.
 -/
-import ImapVerif.Proofs.RT5
+import ImapVerif.Proofs.RT9
 
 open Bytes Parser Grammar
 
 namespace RT
+
+/-- the untagged wrapper with an arbitrary follow condition on the payload: `k` trailing spaces are
+    allowed whenever the payload's parser tolerates `SP* CRLF` after it -/
+theorem responseData_encF (r : Response) (e : Bytes) (k : Nat) (F : Bytes → Prop)
+    (h : Parses responseDataAlt e r F) (hF : ∀ rest, F (List.replicate k 32 ++ (b!"\r\n" ++ rest))) :
+    Parses responseData (b!"* " ++ (e ++ (List.replicate k 32 ++ b!"\r\n"))) r Any := by
+  unfold responseData
+  refine Parses.bind (tag_ok _) ?_ (fun _ _ => trivial)
+  refine Parses.bind h ?_ (fun rest _ => by rw [List.append_assoc]; exact hF rest)
+  refine Parses.bind (spaces_many0 k) ?_ (fun rest _ => ⟨13, 10 :: rest, by simp, by decide⟩)
+  exact Parses.bind' (tag_ok _) (Parses.pure _ _) (fun _ _ => trivial) (by simp)
+
+theorem parseResponse_untaggedF (r : Response) (e : Bytes) (k : Nat) (F : Bytes → Prop)
+    (h : Parses responseDataAlt e r F) (hF : ∀ rest, F (List.replicate k 32 ++ (b!"\r\n" ++ rest))) (rest : Bytes) :
+    parseResponse (b!"* " ++ (e ++ (List.replicate k 32 ++ b!"\r\n")) ++ rest) = .ok r rest := by
+  have : Parses parseResponse (b!"* " ++ (e ++ (List.replicate k 32 ++ b!"\r\n"))) r Any := by
+    unfold parseResponse
+    refine Parses.altR (Parses.altL (responseData_encF r e k F h hF)) ?_
+    intro rest _
+    exact continueReq_err_star _
+  exact this rest trivial
+
+theorem spaces_head (k : Nat) (rest : Bytes) :
+    ∃ c t, List.replicate k 32 ++ (b!"\r\n" ++ rest) = c :: t ∧ (c = 32 ∨ c = 13) := by
+  cases k with
+  | zero => exact ⟨13, 10 :: rest, by simp, Or.inr rfl⟩
+  | succ k => exact ⟨32, List.replicate k 32 ++ (b!"\r\n" ++ rest), by simp [List.replicate_succ], Or.inl rfl⟩
+
+/-- a payload introduced by a keyword (mailbox data) at the level of `response_data` -/
+theorem responseDataAlt_mailbox (d : MailboxDatum) (c : UInt8) (u : Bytes) (m : List Bool) (tail : Bytes)
+    (F : Bytes → Prop) (h : Parses mailboxData (spell (c :: u) m ++ tail) d F) (hs : notStatusKw (c :: u) = true) :
+    Parses responseDataAlt (spell (c :: u) m ++ tail) (.mailboxData d) F := by
+  unfold responseDataAlt
+  refine Parses.altR (Parses.altL (Parses.map _ h)) ?_
+  intro rest _
+  rw [List.append_assoc]
+  exact respCond_err_kw _ m _ hs
+
+theorem tagChar_first (c : UInt8) (h : isTagChar c = true) : ((43 : UInt8) == c) = false ∧ ((42 : UInt8) == c) = false := by
+  have key : ∀ n : Fin 256, isTagChar (UInt8.ofNat n.val) = true →
+      ((43 : UInt8) == UInt8.ofNat n.val) = false ∧ ((42 : UInt8) == UInt8.ofNat n.val) = false := by
+    decide +kernel
+  have := key ⟨c.toNat, c.toNat_lt⟩
+  simp only [UInt8.ofNat_toNat] at this
+  exact this h
 
 /-- `EncResponse r e`: the complete line(s) `e` is one of the spellings of `r` that an RFC 3501
     server may send (keyword case, string forms, zero padding, tolerated deviations are all
@@ -14,11 +59,133 @@ namespace RT
 inductive EncResponse : Response → Bytes → Prop
   | fetch (r : Response) (e : Bytes) (k : Nat) : EncFetch r e →
       EncResponse r (b!"* " ++ (e ++ (List.replicate k 32 ++ b!"\r\n")))
+  /-- `* n EXISTS`, `* n RECENT`, `* n EXPUNGE` -/
+  | numeric (r : Response) (e : Bytes) (k : Nat) : EncNumeric r e →
+      EncResponse r (b!"* " ++ (e ++ (List.replicate k 32 ++ b!"\r\n")))
+  | flags (m : List Bool) (vs : List Bytes) (e : Bytes) (k : Nat) : EncList EncFlagPerm vs e →
+      EncResponse (.mailboxData (.flags vs))
+        (b!"* " ++ ((spell (b!"FLAGS ") m ++ e) ++ (List.replicate k 32 ++ b!"\r\n")))
+  /-- `* SEARCH n n ...`: with the tolerated trailing space any number of further spaces may follow -/
+  | search (v : List Nat) (sp : Bool) (e : Bytes) (k : Nat) : EncNumList (b!"SEARCH") v sp e → (sp = false → k = 0) →
+      EncResponse (.mailboxData (.search v)) (b!"* " ++ (e ++ (List.replicate k 32 ++ b!"\r\n")))
+  | sort (v : List Nat) (sp : Bool) (e : Bytes) (k : Nat) : EncNumList (b!"SORT") v sp e → (sp = false → k = 0) →
+      EncResponse (.mailboxData (.sort v)) (b!"* " ++ (e ++ (List.replicate k 32 ++ b!"\r\n")))
+  /-- `* LIST (attrs) delim name` and `* LSUB ...` (both are `MailboxDatum.list`) -/
+  | list (lsub : Bool) (m : List Bool) (attrs : List NameAttribute) (d : Option Bytes) (name e : Bytes) (k : Nat) :
+      EncMailboxList attrs d name e →
+      EncResponse (.mailboxData (.list attrs d name))
+        (b!"* " ++ ((spell (if lsub then b!"LSUB " else b!"LIST ") m ++ e) ++ (List.replicate k 32 ++ b!"\r\n")))
+  | status (m : List Bool) (name ename : Bytes) (items : List StatusAttribute) (ei : Bytes) (k : Nat) :
+      EncAString name ename → validUtf8 name = true → EncList EncStatusAtt items ei →
+      EncResponse (.mailboxData (.status (canonMailbox name) items))
+        (b!"* " ++ ((spell (b!"STATUS ") m ++ (ename ++ (b!" " ++ ei))) ++ (List.replicate k 32 ++ b!"\r\n")))
+  | capabilities (v : List Capability) (e : Bytes) (k : Nat) : EncCaps v e →
+      EncResponse (.capabilities v) (b!"* " ++ (e ++ (List.replicate k 32 ++ b!"\r\n")))
+  /-- untagged status response `* OK [code] text` -/
+  | data (s : Status) (m : List Bool) (v : Option ResponseCode × Option Bytes) (e : Bytes) : EncTrailing v e →
+      EncResponse (.data s v.1 v.2) (b!"* " ++ ((spell (statusKw s) m ++ e) ++ b!"\r\n"))
+  /-- tagged completion `A0001 OK [code] text` -/
+  | done (t : Bytes) (s : Status) (m : List Bool) (v : Option ResponseCode × Option Bytes) (e : Bytes) :
+      IsTag t → EncTrailing v e →
+      EncResponse (.done t s v.1 v.2) (t ++ (b!" " ++ (spell (statusKw s) m ++ (e ++ b!"\r\n"))))
+  /-- continuation request `+ text` / `+text` -/
+  | continue_ (sp : Bool) (v : Option ResponseCode × Option Bytes) (e : Bytes) : EncRespText v e →
+      (sp = false → ∀ x t, e = x :: t → ((32 : UInt8) == x) = false) →
+      EncResponse (.continue_ v.1 v.2) (b!"+" ++ ((if sp then b!" " else []) ++ (e ++ b!"\r\n")))
 
 /-- **the parser inverts the printer relation**: exactly the value, exactly the bytes -/
 theorem parseResponse_enc (r : Response) (e : Bytes) (h : EncResponse r e) (rest : Bytes) :
     parseResponse (e ++ rest) = .ok r rest := by
   cases h with
-  | fetch e k hf => exact parseResponse_fetch r e k hf rest
+  | fetch =>
+    rename_i e k hf
+    exact parseResponse_fetch r e k hf rest
+  | numeric =>
+    rename_i e k hn
+    exact parseResponse_untaggedF r e k Any (responseDataAlt_numeric r e hn) (fun _ => trivial) rest
+  | flags m vs e k he =>
+    refine parseResponse_untaggedF _ _ k Any ?_ (fun _ => trivial) rest
+    exact responseDataAlt_mailbox _ 70 _ m e Any (mailboxDataFlags_enc vs e he m) (by decide)
+  | search v sp e k he hk =>
+    have hp := mailboxData_search v sp e he
+    cases he with
+    | mk m items sp hall =>
+      refine parseResponse_untaggedF _ _ k (AfterNumList sp) ?_ ?_ rest
+      · exact responseDataAlt_mailbox _ 83 _ m _ _ hp (by decide)
+      · intro rest'
+        cases sp with
+        | true =>
+          obtain ⟨c, t, hct, hc⟩ := spaces_head k rest'
+          exact ⟨c, t, hct, by rcases hc with rfl | rfl <;> decide⟩
+        | false =>
+          have := hk rfl; subst this
+          exact ⟨10 :: rest', by simp⟩
+  | sort v sp e k he hk =>
+    have hp := mailboxData_sort v sp e he
+    cases he with
+    | mk m items sp hall =>
+      refine parseResponse_untaggedF _ _ k (AfterNumList sp) ?_ ?_ rest
+      · exact responseDataAlt_mailbox _ 83 _ m _ _ hp (by decide)
+      · intro rest'
+        cases sp with
+        | true =>
+          obtain ⟨c, t, hct, hc⟩ := spaces_head k rest'
+          exact ⟨c, t, hct, by rcases hc with rfl | rfl <;> decide⟩
+        | false =>
+          have := hk rfl; subst this
+          exact ⟨10 :: rest', by simp⟩
+  | list lsub m attrs d name e k he =>
+    refine parseResponse_untaggedF _ _ k (Starts notAstringChar) ?_ ?_ rest
+    · cases lsub with
+      | false => exact responseDataAlt_mailbox _ 76 _ m e _ (mailboxData_list false m attrs d name e he) (by decide)
+      | true => exact responseDataAlt_mailbox _ 76 _ m e _ (mailboxData_list true m attrs d name e he) (by decide)
+    · intro rest'
+      obtain ⟨c, t, hct, hc⟩ := spaces_head k rest'
+      exact ⟨c, t, hct, by rcases hc with rfl | rfl <;> decide⟩
+  | status m name ename items ei k hn hu hi =>
+    refine parseResponse_untaggedF _ _ k Any ?_ (fun _ => trivial) rest
+    exact responseDataAlt_mailbox _ 83 _ m _ Any (mailboxData_status m name ename hn hu items ei hi) (by decide)
+  | capabilities v e k he =>
+    refine parseResponse_untaggedF _ _ k EndOfCaps (responseDataAlt_caps v e he) ?_ rest
+    intro rest'
+    cases k with
+    | zero => exact Or.inl ⟨13, 10 :: rest', by simp, Or.inl rfl⟩
+    | succ k =>
+      obtain ⟨c, t, hct, hc⟩ := spaces_head k rest'
+      refine Or.inr ⟨c, t, by have := congrArg (List.cons 32) hct; simpa [List.replicate_succ] using this, ?_⟩
+      rcases hc with rfl | rfl <;> decide
+  | data s m v e he =>
+    have h0 : Parses responseDataAlt (spell (statusKw s) m ++ e) (.data s v.1 v.2) (Starts crlfStart) := by
+      unfold responseDataAlt
+      exact Parses.altL (respCond_enc s m v e he)
+    have := parseResponse_untaggedF _ _ 0 (Starts crlfStart) h0 (fun r => ⟨13, 10 :: r, by simp, by decide⟩) rest
+    simpa using this
+  | done t s m v e ht he =>
+    have : Parses parseResponse (t ++ (b!" " ++ (spell (statusKw s) m ++ (e ++ b!"\r\n")))) (.done t s v.1 v.2) Any := by
+      unfold parseResponse
+      obtain ⟨hne, hall⟩ := ht
+      cases t with
+      | nil => exact absurd rfl hne
+      | cons c cs =>
+        have hc := tagChar_first c (hall c (by simp))
+        refine Parses.altR (Parses.altR (responseTagged_enc (c :: cs) ⟨hne, hall⟩ s m v e he) ?_) ?_
+        · intro rest' _
+          unfold responseData
+          show Parser.bindP (tag (b!"* ")) _ _ = .err
+          unfold Parser.bindP
+          simp only [List.cons_append]
+          rw [tag_err_first (b!"* ") 42 c _ rfl hc.2]
+        · intro rest' _
+          unfold continueReq
+          show Parser.bindP (tag (b!"+")) _ _ = .err
+          unfold Parser.bindP
+          simp only [List.cons_append]
+          rw [tag_err_first (b!"+") 43 c _ rfl hc.1]
+    exact this rest trivial
+  | continue_ sp v e he hsp =>
+    have : Parses parseResponse (b!"+" ++ ((if sp then b!" " else []) ++ (e ++ b!"\r\n"))) (.continue_ v.1 v.2) Any := by
+      unfold parseResponse
+      exact Parses.altL (continueReq_enc sp v e he hsp)
+    exact this rest trivial
 
 end RT
